@@ -198,6 +198,58 @@ def run_reuse(ctx):
             ctx.violate("policy-as-documented", "stale-" + component_diff(s_, r) + "-after-earlier-connect", inp, s_, r, size=10 + inp["step"])
 
 
+def run_app_runs(ctx):
+    """the application object: `sslopt` is an argument of each run_forever() call.  Several runs on ONE WebSocketApp, each
+    with its own sslopt (relaxed, absent, None, {}), reconnecting runs included: the options that reach the TLS wrap of a
+    connection are the ones of THE RUN it belongs to — judged by the Spec policy of (received options) vs (that run's
+    options).  Real runs under the virtual-time scheduler; oracle only."""
+    import appsim
+    rnd = ctx.rng("app-runs")
+    relaxed = [{"cert_reqs": ssl.CERT_NONE, "check_hostname": False}, {"cert_reqs": ssl.CERT_NONE}, {"check_hostname": False},
+               {"ca_certs": "/etc/other.pem"}]
+    plain = [None, {}, "absent"]
+    scs = []
+    for it in range(60 if ctx.thorough() else 18):
+        nruns = rnd.randint(2, 3)
+        opts = []
+        for ri in range(nruns):
+            opts.append(rnd.choice(relaxed) if (ri + it) % 2 == 0 else rnd.choice(plain))
+        rc = rnd.choice([0, 0, 2])
+        runs = []
+        for ri in range(nruns):
+            conn = ["E", [[10, 0, "t", "6f6b"], [10, 0, "e", ""]]]
+            runs.append([conn, ["E", [[10, 0, "c", "03e8"]]]] if rc else [conn])
+        scs.append({"cbs": appsim.ALL, "ssl": 1, "runs": runs, "rc": rc, "iv": 0, "to": None, "payload": "", "plan": {}, "sched": "",
+                    "sslopts": [None if o == "absent" else o for o in opts], "_absent": [o == "absent" for o in opts]})
+    lines, meta = [], []
+    for sc in scs:
+        sc2 = {k: v for k, v in sc.items() if not k.startswith("_")}
+        # "absent": the keyword is not passed at all in that run
+        if any(sc["_absent"]):
+            sc2["sslopts"] = [("__absent__" if a else o) for a, o in zip(sc["_absent"], sc["sslopts"])]
+        try:
+            r = appsim.run_real(dict(sc2, sslopts=[None if o == "__absent__" else o for o in sc2["sslopts"]]))
+        except Exception as e:  # noqa
+            ctx.diverge("app-runs:harness", sc2, "a run", "harness error " + repr(e)[:200])
+            continue
+        ctx.case(key=("app-runs", json.dumps(sc2, sort_keys=True, default=str)), nontrivial=True,
+                 cls=f"app-runs:runs={len(sc['runs'])}:rc={int(bool(sc['rc']))}:wraps={min(len(r.wraps), 4)}")
+        for ri, got, host in r.wraps:
+            want = sc["sslopts"][ri] or {}
+            lines.append(f"s-tls-policy {sslopt_arg(got)} {tlsenv_arg(None, (), ())} {hx(host)}")
+            lines.append(f"s-tls-policy {sslopt_arg(want)} {tlsenv_arg(None, (), ())} {hx(host)}")
+            meta.append((sc2, ri, got, want))
+        if not r.wraps:
+            ctx.diverge("app-runs:harness", sc2, "at least one TLS wrap", "none recorded: " + r.trace[:200])
+    out = common.run_driver_parallel(lines)
+    for k, (sc2, ri, got, want) in enumerate(meta):
+        pg, pw = out[2 * k], out[2 * k + 1]
+        if pg != pw:
+            ctx.violate("options-affect-only-their-own-connect", "run-" + component_diff(pw, pg) + "-from-another-run-of-the-same-app",
+                        {"op": "several run_forever(sslopt=...) calls on one WebSocketApp", "sslopt_per_run": [sslopt_arg(o) if o != "__absent__" else "absent" for o in sc2["sslopts"]],
+                         "reconnect": sc2["rc"], "run": ri, "options_that_reached_the_wrap": sslopt_arg(got)}, pw, pg, size=len(sc2["runs"]) + 2)
+
+
 def gen_e2e(ctx):
     rnd = ctx.rng("e2e")
     sslopts = [None, {"cert_reqs": ssl.CERT_NONE}, {"check_hostname": False}, {"ca_certs": "/etc/ca.pem"},
@@ -497,9 +549,10 @@ def run(ctx):
                 "ca_certs x ca_cert_path x env bundle {absent,file,dir,missing,empty} x server_hostname x caller context "
                 "(2160) through the real _ssl_socket with a recording subclass of ssl.SSLContext; e2e: {ws,wss} x "
                 "{direct,tunnel} x sslopt x wrap ok/fail x env x redirect to the other scheme (non-trivial = any option "
-                "set); thorough: loopback TLS servers with openssl-minted certificates")
+                "set); app: 2-3 run_forever(sslopt=...) calls on one WebSocketApp (relaxed / absent / None / {}), reconnecting runs included — the options reaching each TLS wrap are its own run's; thorough: loopback TLS servers with openssl-minted certificates")
     run_units(ctx)
     run_reuse(ctx)
+    run_app_runs(ctx)
     run_e2e(ctx)
     if ctx.thorough():
         run_loopback(ctx)
